@@ -65,7 +65,20 @@ type ClientConn struct {
 	logger        *zap.Logger
 	closing       bool
 	closingMu     *sync.RWMutex
-	codec         frame.RawCodec
+	codecMu       sync.RWMutex
+	codec         frame.RawCodec // replaced by Handshake while the connection's reader is already running
+}
+
+func (c *ClientConn) getCodec() frame.RawCodec {
+	c.codecMu.RLock()
+	defer c.codecMu.RUnlock()
+	return c.codec
+}
+
+func (c *ClientConn) setCodec(codec frame.RawCodec) {
+	c.codecMu.Lock()
+	defer c.codecMu.Unlock()
+	c.codec = codec
 }
 
 // ConnectClient creates a new connection to an endpoint within a downstream cluster using TLS if specified.
@@ -96,7 +109,7 @@ func (c *ClientConn) Handshake(ctx context.Context, version primitive.ProtocolVe
 		value := startupKeysAndValues[i+1]
 		if strings.EqualFold("COMPRESSION", key) {
 			if codec, ok := codecs.CustomRawCodecsWithCompression[strings.ToLower(value)]; ok {
-				c.codec = codec
+				c.setCodec(codec)
 			} else {
 				return version, fmt.Errorf("invalid compression type: %s", value)
 			}
@@ -269,14 +282,14 @@ func (c *ClientConn) SetKeyspace(ctx context.Context, version primitive.Protocol
 }
 
 func (c *ClientConn) Receive(reader io.Reader) error {
-	raw, err := c.codec.DecodeRawFrame(reader)
+	raw, err := c.getCodec().DecodeRawFrame(reader)
 	if err != nil {
 		return err
 	}
 
 	if raw.Header.OpCode == primitive.OpCodeEvent {
 		if c.eventHandler != nil {
-			frm, err := c.codec.ConvertFromRawFrame(raw)
+			frm, err := c.getCodec().ConvertFromRawFrame(raw)
 			if err != nil {
 				return err
 			}
@@ -318,7 +331,7 @@ func (c *ClientConn) maybePrepareAndExecute(request Request, raw *frame.RawFrame
 	if raw.Header.Flags != 0 {
 		// The error code is not at the start of the raw body if it is compressed or prefixed by a tracing ID, warnings
 		// or a custom payload; the frame has to be decoded to tell.
-		if frm, err := c.codec.ConvertFromRawFrame(raw); err != nil {
+		if frm, err := c.getCodec().ConvertFromRawFrame(raw); err != nil {
 			c.logger.Error("failed to decode error response", zap.Error(err))
 			return false
 		} else if _, ok := frm.Body.Message.(*message.Unprepared); ok {
@@ -334,7 +347,7 @@ func (c *ClientConn) maybePrepareAndExecute(request Request, raw *frame.RawFrame
 	}
 
 	if isUnprepared {
-		frm, err := c.codec.ConvertFromRawFrame(raw)
+		frm, err := c.getCodec().ConvertFromRawFrame(raw)
 		if err != nil {
 			c.logger.Error("failed to decode unprepared error response", zap.Error(err))
 			return false
@@ -372,7 +385,7 @@ func (c *ClientConn) maybeCachePrepared(request Request, raw *frame.RawFrame) {
 	// response types to see if check for prepared responses.
 	if request.IsPrepareRequest() {
 
-		frm, err := c.codec.ConvertFromRawFrame(raw)
+		frm, err := c.getCodec().ConvertFromRawFrame(raw)
 		if err != nil {
 			c.logger.Error("failed to decode prepared result response", zap.Error(err))
 			return
@@ -444,7 +457,7 @@ func (c *ClientConn) SendAndReceive(ctx context.Context, f *frame.Frame) (*frame
 
 	select {
 	case r := <-request.res:
-		return c.codec.ConvertFromRawFrame(r)
+		return c.getCodec().ConvertFromRawFrame(r)
 	case e := <-request.err:
 		return nil, e
 	case <-ctx.Done():
@@ -510,10 +523,10 @@ func (r *requestSender) Send(writer io.Writer) error {
 	switch frm := r.request.Frame().(type) {
 	case *frame.Frame:
 		frm.Header.StreamId = r.stream
-		return r.conn.codec.EncodeFrame(frm, writer)
+		return r.conn.getCodec().EncodeFrame(frm, writer)
 	case *frame.RawFrame:
 		frm.Header.StreamId = r.stream
-		return r.conn.codec.EncodeRawFrame(frm, writer)
+		return r.conn.getCodec().EncodeRawFrame(frm, writer)
 	default:
 		return errors.New("unhandled frame type")
 	}
